@@ -136,6 +136,7 @@ type State struct {
 	old    *State // entry snapshot of the root function
 	evEpoch string
 	retBlock *ssa.BasicBlock
+	curBlock *ssa.BasicBlock // block being executed in the top frame
 	epochClock *Term
 	heapEpoch string
 	dead   bool
@@ -145,7 +146,7 @@ type State struct {
 func (s *State) top() *Frame { return s.frames[len(s.frames)-1] }
 
 func (s *State) clone() *State {
-	n := &State{pc: s.pc, alloc: s.alloc, clock: s.clock, old: s.old, evEpoch: s.evEpoch, retBlock: s.retBlock, epochClock: s.epochClock, heapEpoch: s.heapEpoch, dead: s.dead}
+	n := &State{pc: s.pc, alloc: s.alloc, clock: s.clock, old: s.old, evEpoch: s.evEpoch, retBlock: s.retBlock, curBlock: s.curBlock, epochClock: s.epochClock, heapEpoch: s.heapEpoch, dead: s.dead}
 	n.frames = make([]*Frame, len(s.frames))
 	for i, f := range s.frames {
 		nf := &Frame{fn: f.fn, root: f.root, env: make(map[ssa.Value]Value, len(f.env)), origin: make(map[ssa.Value]*PtrV, len(f.origin)),
@@ -216,6 +217,7 @@ type Exec struct {
 	rootKey  string
 	rootFC   *FuncContract
 	rootNames map[string]bool
+	initMode bool // executing a package initialiser: init calls of imported packages are skipped
 	fresh    int
 	cellID   int
 	paths    int
@@ -439,8 +441,24 @@ func (x *Exec) globalPtr(st *State, g *ssa.Global) Value {
 	}
 	if _, ok := st.cells[c]; !ok {
 		// package-level variables are read-only in the repo (checked by the C14 frame sweep);
-		// their content is the initialiser's, modelled as an unconstrained constant per global.
+		// their content is the initialiser's: the term the package initialiser computes where that
+		// is a closed term, an unconstrained constant per global otherwise.
 		st.cells[c] = x.globalInit(g, c)
+		if !x.initMode && g.Pkg != nil && x.w.inRepoPkg(g.Pkg) {
+			if pi := x.w.pkgInitOf(g.Pkg); pi != nil {
+				if v, ok := pi.vals[g]; ok {
+					st.cells[c] = v
+					if m, isMap := c.typ.Underlying().(*types.Map); isMap {
+						// the table itself lives in the heap: its content is what the initialiser stored
+						cs, _, _ := mapSorts(x.w, m)
+						if ih, ok := pi.heaps[cs]; ok {
+							ref := v.(*Term)
+							st.assume(Eq(Select(x.heap(st, cs), ref, cs), Select(ih, ref, cs)))
+						}
+					}
+				}
+			}
+		}
 	}
 	return &PtrV{cell: c}
 }
@@ -448,6 +466,124 @@ func (x *Exec) globalPtr(st *State, g *ssa.Global) Value {
 func (x *Exec) globalInit(g *ssa.Global, c *Cell) Value {
 	s := x.w.sortOf(c.typ)
 	return VarT("G_"+mangle(shortPkg(g.Pkg.Pkg.Path())+"_"+g.Name()), s)
+}
+
+// ---------------------------------------------------------------- package initialisers
+//
+// A package-level variable of the repository that is only ever assigned by its package's
+// initialiser has the value that initialiser computes.  The synthetic init function is executed
+// once, symbolically, from an empty state (calls to the init functions of imported packages are
+// skipped); where that yields a closed term (tables of literals: the lexer's operator list and
+// keyword map) the term is the global's content, otherwise the global stays an unconstrained
+// constant.  Map-valued globals get references below zero, which no parameter and no fresh
+// allocation can have; their content is a fact about the heap assumed when the global is first read.
+
+type pkgInit struct {
+	vals  map[*ssa.Global]Value
+	heaps map[string]*Term // final heaps of the init run (for map-valued globals)
+}
+
+var pkgInits = map[*ssa.Package]*pkgInit{}
+var pkgInitRunning = map[*ssa.Package]bool{}
+
+func (w *World) pkgInitOf(pkg *ssa.Package) *pkgInit {
+	if pi, ok := pkgInits[pkg]; ok {
+		return pi
+	}
+	if pkgInitRunning[pkg] {
+		return nil
+	}
+	pkgInitRunning[pkg] = true
+	defer delete(pkgInitRunning, pkg)
+	pi := &pkgInit{vals: map[*ssa.Global]Value{}, heaps: map[string]*Term{}}
+	pkgInits[pkg] = pi
+	fn := pkg.Func("init")
+	if fn == nil || len(fn.Blocks) < 2 {
+		return pi
+	}
+	x := newExec(w, "init:"+pkg.Pkg.Path())
+	x.initMode = true
+	x.safetyOn = false
+	st := newState()
+	st.alloc = IntT(-100000)
+	var finals []*State
+	x.runFunc(st, fn, nil, nil, func(s *State, res []Value) { finals = append(finals, s) })
+	if x.outside != "" || len(finals) == 0 {
+		return pi
+	}
+	// the run that executed the initialiser is the one with the most cells written
+	best := finals[0]
+	for _, f := range finals[1:] {
+		if len(f.cells) > len(best.cells) {
+			best = f
+		}
+	}
+	for _, m := range pkg.Members {
+		g, ok := m.(*ssa.Global)
+		if !ok || strings.HasPrefix(g.Name(), "init$") {
+			continue
+		}
+		c := globalCells[g]
+		if c == nil {
+			continue
+		}
+		v, ok := best.cells[c]
+		if !ok {
+			continue
+		}
+		t, isTerm := v.(*Term)
+		if !isTerm || !closedTerm(t) || !w.onlyInitWrites(g) {
+			continue
+		}
+		pi.vals[g] = t
+	}
+	for h, t := range best.heaps {
+		pi.heaps[h] = t
+	}
+	return pi
+}
+
+// closedTerm: no free symbolic inputs other than the initial heaps and unknown map defaults.
+func closedTerm(t *Term) bool {
+	fv := map[string]string{}
+	collectVars(t, fv)
+	for v := range fv {
+		if strings.HasPrefix(v, "G_") || strings.HasPrefix(v, "ext") || strings.Contains(v, "_r0") {
+			return false
+		}
+	}
+	return true
+}
+
+// onlyInitWrites: no function of the repository other than the package initialiser stores to g
+// or lets its address escape.
+func (w *World) onlyInitWrites(g *ssa.Global) bool {
+	refs := 0
+	for _, fn := range w.allRepoFuncs() {
+		if fn.Name() == "init" && fn.Synthetic != "" {
+			continue
+		}
+		for _, b := range fn.Blocks {
+			for _, ins := range b.Instrs {
+				for _, op := range ins.Operands(nil) {
+					if op == nil || *op != ssa.Value(g) {
+						continue
+					}
+					refs++
+					switch u := ins.(type) {
+					case *ssa.UnOp:
+						if u.Op != token.MUL {
+							return false
+						}
+					case *ssa.DebugRef:
+					default:
+						return false
+					}
+				}
+			}
+		}
+	}
+	return true
 }
 
 func (x *Exec) havocOfType(base string, t types.Type) Value {
@@ -752,6 +888,9 @@ func (x *Exec) runBlock(st *State, b *ssa.BasicBlock, pred *ssa.BasicBlock, k co
 }
 
 func (x *Exec) runInstrs(st *State, b *ssa.BasicBlock, idx int, k cont) {
+	if len(st.frames) == 1 {
+		st.curBlock = b
+	}
 	for ; idx < len(b.Instrs); idx++ {
 		if st.dead {
 			return
@@ -1021,7 +1160,14 @@ func (x *Exec) binop(st *State, op token.Token, a, b Value, opType types.Type, p
 				res = false
 				if aPF || bPF {
 					// a function-typed parameter: nil-ness unknown
-					r := x.freshVar("fnnil", "Bool")
+					// (one symbol per parameter: the same one contracts refer to with `f != nil`)
+					var pf *ParamFuncV
+					if aPF {
+						pf = a.(*ParamFuncV)
+					} else {
+						pf = b.(*ParamFuncV)
+					}
+					r := VarT("fnnil_"+pf.name, "Bool")
 					if op == token.NEQ {
 						return Not(r)
 					}
@@ -1441,6 +1587,10 @@ func loopPos(l *Loop) token.Pos {
 
 const unrollCap = 40
 
+// implicitUnrollCap: loops without annotations whose trip count is a known constant are unrolled
+// only up to this many iterations; longer ones are cut like any other loop.
+const implicitUnrollCap = 12
+
 // handleLoopHead returns false when the path ends here (back edge at a cut).
 func (x *Exec) handleLoopHead(st *State, fr *Frame, lp *Loop, b, pred *ssa.BasicBlock) bool {
 	back := pred != nil && b.Dominates(pred) && lp.blocks[pred]
@@ -1612,6 +1762,10 @@ func (x *Exec) concreteLoop(st *State, fr *Frame, lp *Loop, b, pred *ssa.BasicBl
 				tmp[in] = Sub(at, bt)
 			case token.LSS, token.LEQ, token.GTR, token.GEQ:
 				if at.Sort != "Int" {
+					return false
+				}
+				if (in.Op == token.LSS || in.Op == token.LEQ) && at.Kind == KInt && bt.Kind == KInt && bt.I-at.I > implicitUnrollCap && fr.iter[b] == 0 {
+					// a long table: one cut with invariants instead of dozens of unrolled iterations
 					return false
 				}
 				tmp[in] = Cmp(in.Op.String(), at, bt)
